@@ -849,8 +849,9 @@ func (r *W3Run) truthOracle(prop string, partial bool) {
 		case "ins", "upd":
 			if !present || ver != l.ver {
 				// the item may live in a partition whose replicas are all gone - but only a write
-				// acknowledged BEFORE the first node went down for good can have landed there
-				if !ownerKnown && len(partAlive) < len(d0.ids) && r.firstPermanentCrash != 0 && l.h.ret < r.firstPermanentCrash {
+				// INVOKED before the first node went down for good can have landed there (its
+				// answer may still have been on the way when the node died)
+				if !ownerKnown && len(partAlive) < len(d0.ids) && r.firstPermanentCrash != 0 && l.h.inv < r.firstPermanentCrash {
 					continue
 				}
 				r.out.Violate(prop, "acknowledged-write-not-applied", "%s of id#%d (version %d) through n%d was acknowledged with success, but no surviving replica holds it (present=%v version=%d); last error seen: %v", l.kind, id, l.ver, l.h.op.Node, present, ver, l.h.err)
